@@ -235,7 +235,7 @@ Fixpoint rd_cbins_loop (ver dummy : Z) (n : nat) (acc : list cbin) (st : option 
 Definition rd_cref (ver limit : Z) : rd cref :=
   n <- rd_i32 ;;
   if n =? 0 then rd_ret (mkCRef [] None) else
-  if u32 n >? limit then rd_fail 1 else
+  if u32 n >? u32 (limit + 1) then rd_fail 1 else          (* every bin plus the statistics pseudo-bin *)
   k <- rd_count n ;; r <- rd_cbins_loop ver (u32 (limit + 1)) k [] None ;; rd_ret (mkCRef (fst r) (snd r)).
 
 Definition csi_read (s : list Z) : outcome (option cindex) :=
